@@ -181,7 +181,10 @@ type GuardRow struct {
 	// ReadersUnlocked: functions (all running on the single writer goroutine)
 	// that may READ without the lock; writes always need the exclusive lock.
 	WriterGoroutine map[string]string
-	// ReadOnlyAfterInit: fields written only in Exempt functions are not checked for reads
+	// CallSiteAnyInstance: a call to a lock-held helper is accepted when the caller
+	// holds this mutex field of ANY instance (the instances are tied by a
+	// back-pointer invariant that the rule set checks separately)
+	CallSiteAnyInstance bool
 }
 
 // GuardViolation is one unguarded access.
@@ -306,6 +309,13 @@ func (p *Prog) CheckGuard(row GuardRow) GuardResult {
 							}
 							need += "." + row.Mutex
 							ls := get()[in]
+							if row.CallSiteAnyInstance && !ls.Holds(need, !strings.HasPrefix(tmpl, "R:")) {
+								for k, mode := range ls {
+									if strings.HasSuffix(k, "."+row.Mutex) && (mode == 'W' || strings.HasPrefix(tmpl, "R:")) {
+										need = k
+									}
+								}
+							}
 							if _, isGo := in.(*ssa.Go); isGo || !ls.Holds(need, !strings.HasPrefix(tmpl, "R:")) {
 								res.Violations = append(res.Violations, GuardViolation{Fn: fn, Instr: in, Need: need, Have: ls, CallTo: cal.Name()})
 							}
